@@ -15,7 +15,7 @@ pub fn prop() -> Prop {
     Prop {
         id: "C08",
         level: "exploration",
-        rule: "all 128^4 ASCII 4-byte names through MainEventBankName and every specific *BankName parser against a transcribed grammar (exhaustive, both tiers), names of length 0..=6 and non-ASCII sampled; distinct accepted names must denote distinct (kind, board, channel); runs 0..=20000, 2^32-1, 2^32-2 and random u32 x all 8 Alpha16 boards x 32 channels and x all 71 PadWing boards (bijection onto 256 wires / 64 board slots, errors below 2941 / 4418), full 18432-pad bijection at epoch boundaries (quick) or every 97th run (thorough), simulation == run 5000; geometry probe: wire w + pad pulse in column c' gives an avalanche iff c' = floor(phi_w / (2 pi / 32)). Non-trivial = accepted names + (run, board) pairs with a map + geometry probes that produced an avalanche (counted by construction / hash). Also: history independence of the maps (reference tables from a fresh thread; monitored calls board-major, every run right after every other run across the epochs; composition with TpcPwbPosition / PwbPadPosition), names with signs / leading zeros / spaces, every arrangement of multi-byte characters in 4 bytes. Round 4: every run as the first question of a brand-new thread and right after exactly one other run (196 ordered pairs x 71 boards), against the reference table. Round 5: look-alike characters (low-byte, case and width aliases) in every position of ~400 valid names; 8 threads asking the pad map at once for runs of different epochs. Round 6: a board asked, then exactly 255..65 537 changes of run number on another board, then asked again in another epoch; consecutive (run, board) pairs crafted to collide under xor / sum / difference of the run number with any 4-byte window of the MAC. Round 7: every valid name with one more character in front / behind; pad, wire, pad questions of a new thread for every ordered pair of runs.",
+        rule: "all 128^4 ASCII 4-byte names through MainEventBankName and every specific *BankName parser against a transcribed grammar (exhaustive, both tiers), names of length 0..=6 and non-ASCII sampled; distinct accepted names must denote distinct (kind, board, channel); runs 0..=20000, 2^32-1, 2^32-2 and random u32 x all 8 Alpha16 boards x 32 channels and x all 71 PadWing boards (bijection onto 256 wires / 64 board slots, errors below 2941 / 4418), full 18432-pad bijection at epoch boundaries (quick) or every 97th run (thorough), simulation == run 5000; geometry probe: wire w + pad pulse in column c' gives an avalanche iff c' = floor(phi_w / (2 pi / 32)). Non-trivial = accepted names + (run, board) pairs with a map + geometry probes that produced an avalanche (counted by construction / hash). Also: history independence of the maps (reference tables from a fresh thread; monitored calls board-major, every run right after every other run across the epochs; composition with TpcPwbPosition / PwbPadPosition), names with signs / leading zeros / spaces, every arrangement of multi-byte characters in 4 bytes. Round 4: every run as the first question of a brand-new thread and right after exactly one other run (196 ordered pairs x 71 boards), against the reference table. Round 5: look-alike characters (low-byte, case and width aliases) in every position of ~400 valid names; 8 threads asking the pad map at once for runs of different epochs. Round 6: a board asked, then exactly 255..65 537 changes of run number on another board, then asked again in another epoch; consecutive (run, board) pairs crafted to collide under xor / sum / difference of the run number with any 4-byte window of the MAC. Round 7: every valid name with one more character in front / behind; pad, wire, pad questions of a new thread for every ordered pair of runs. Round 9: every integer literal of the sources (both byte orders) as a PadWing device id: accepted iff documented, and denoting the board of that name; MAC and name constructors agree for all 71 boards.",
         assumptions: &["grammar and board tables transcribed into the harness (A16 names, 71 PWB boards)", "geometry probe uses the public phi() functions as ground truth for the angular position of wires and pad columns"],
         profiles: release_only,
         shards: shards16,
